@@ -17,7 +17,7 @@ class C12(Prop):
             "NRB/ISB/custom/unknown blocks at random positions, legacy pcap us/ns magic in both byte orders (with -l); "
             "oracle: output bytes identical to the baseline's; one evaluation = one export; non-trivial = the variant's "
             "container bytes differ and the baseline exported packets; distinct = (scenario, variant)")
-    reach = ["be", "dec3", "dec9", "bin", "tsoffset", "tsoffset_option_before_tsresol", "first_interface_not_ethernet",
+    reach = ["be", "dec3", "dec9", "bin", "tsoffset", "tsoffset_option_before_tsresol", "first_interface_not_ethernet", "two_sections", "capture_clock_steps",
              "baseline_after_variant_in_one_process", "blocks", "opts", "pcap_us_le", "pcap_us_be", "pcap_ns_le",
              "pcap_ns_be", "quic_world"]
 
@@ -36,6 +36,16 @@ class C12(Prop):
         if ms:
             spec["tap"]["res_us"] = 1000
             spec["tap"]["epoch_us"] -= spec["tap"]["epoch_us"] % 1000
+        ST = R.fork("steps")
+        if ST.chance(25):
+            # the capture clock steps (NTP correction, two captures appended): later packets may carry earlier stamps,
+            # also across a 2^32 tick boundary of the 64 bit timestamp (4295 s at 10^-6, 4.3 s at 10^-9)
+            ex_ = world.expand(spec)
+            n_ = max(1, len(ex_["taplog"]))
+            k_ = 1000 if ms else 1
+            spec["tap"]["steps"] = [[ST.below(n_), ST.choice([-1, 1]) * ST.choice([5000000, 3600000000, 10800000000, 7000000]) // k_ * k_]
+                                    for _ in range(ST.range(1, 2))]
+            spec["clock_steps"] = True
         V = R.fork("var")
         esec = spec["tap"]["epoch_us"] // 1000000
 
@@ -58,6 +68,7 @@ class C12(Prop):
                      "tsoffset": offs(0, -5, 7200), "epb_opts": V.chance(50), "tsoffset_first": V.chance(50)}],
             ["first_interface_not_ethernet", dict({"first_idb_linktype": V.choice([0, 101, 113, 228, 127]), "be": V.chance(30)},
                                                   **V.choice([{}, {"tsresol": ["dec", 6]}, {"tsresol": ["dec", 9]}]))],
+            ["two_sections", {"sections": V.range(1, 40), "be": V.chance(30)}],
             ["tsoffset_option_before_tsresol", {"be": V.chance(30), "tsresol": V.choice([["dec", 9], ["dec", 7], ["bin", 24]]),
                                                 "tsoffset": offs(-1, 3600, -86400, 1000000000), "tsoffset_first": True}],
         ]
@@ -100,6 +111,8 @@ class C12(Prop):
             n0 = 0
         if any(c["proto"] == "quic" for c in spec["conns"]):
             out.count("reach:quic_world")
+        if spec.get("clock_steps"):
+            out.count("reach:capture_clock_steps")
         for name, cont in spec.get("variants", []):
             if lane.expired():
                 out.count("enumeration_truncated_by_budget")
